@@ -85,6 +85,19 @@ def mk(model):
     I.libmeth[("Interp", "__call__")] = interp_call
     for nm in ("columns", "index", "values", "T"):
         I.libattr[("Term", nm)] = (lambda nm: lambda I, v, n: Term("." + nm, [v]))(nm)
+    import pathlib as _pl
+
+    def mk_path(I, a, k, n):
+        if a and isinstance(a[0], str):
+            return Obj(kind="PurePath", label=a[0], attrs={"p": _pl.PurePosixPath(a[0])})
+        return Term("pathlib.Path", a, k)
+    for nm in ("pathlib.Path", "pathlib.PurePath", "pathlib.PurePosixPath"):
+        I.ext[nm] = mk_path
+    for at in ("stem", "name", "suffix"):
+        I.libattr[("PurePath", at)] = (lambda at: lambda I, v, n: getattr(v.attrs["p"], at))(at)
+    I.libattr[("PurePath", "parent")] = lambda I, v, n: Obj(kind="PurePath", label=str(v.attrs["p"].parent), attrs={"p": v.attrs["p"].parent})
+    I.ext["os.path.basename"] = lambda I, a, k, n: _pl.PurePosixPath(a[0]).name if isinstance(a[0], str) else Term("os.path.basename", a)
+    I.ext["os.path.splitext"] = lambda I, a, k, n: (str(_pl.PurePosixPath(a[0]).with_suffix("")), _pl.PurePosixPath(a[0]).suffix) if isinstance(a[0], str) else Term("os.path.splitext", a)
     I.ext["builtins.open"] = lambda I, a, k, n: Obj(kind="File", label="file", attrs={"path": a[0]})
     I.libmeth[("File", "__enter__")] = lambda I, v, a, k, n: v
     I.libmeth[("File", "__exit__")] = lambda I, v, a, k, n: None
@@ -524,6 +537,33 @@ def _leak(t, srcs):
     return walk(t, None)
 
 
+def r_path(ctx: Ctx, model):
+    ctx.rule("K-path: a shipped kernel name resolves to its packaged file; any other value - in particular a user file whose name "
+             "resembles a shipped kernel - reaches the fit unchanged")
+    fi = model.func(f"{PK}.psd_dft")
+    cases = {"DFT-N2-77K-carbon-slit": "shipped", "/data/user/DFT-N2-77K-carbon-slit.csv": "self", "/data/user/my-kernel.csv": "self",
+             "DFT-N2-77K-carbon-slit.csv": "self"}
+    for kernel, want in cases.items():
+        I = mk(model)
+        cap = {}
+        I.overrides["pygaps.utilities.pygaps_utilities.get_iso_loading_and_pressure_ordered"] = lambda I, fi_, env, n: (Term("P_in"), Term("L_in"))
+
+        def fit(I, fi_, env, n, cap=cap):
+            cap["kernel_path"] = env.get("kernel_path")
+            return (Term("W"), Term("D"), Term("C"), Term("F"))
+        I.overrides[f"{PK}.psd_dft_kernel_fit"] = fit
+        outs = [o for o in I.explore(lambda I: I.call_func(fi, [Obj(kind="IsoStub", label="iso", attrs={})], {"kernel": kernel}, None)) if o.kind == "ok"]
+        got = cap.get("kernel_path")
+        if want == "self":
+            ok = bool(outs) and got == kernel
+        else:
+            ok = bool(outs) and got is not None and got != kernel
+        ctx.ob(ok, Finding("C18.K-path", fi.where, f"kernel={'shipped-name' if want == 'shipped' else 'user:' + kernel.split('/')[-1]}",
+                           f"psd_dft(kernel={kernel!r}) hands {got!r} to the fit; required "
+                           f"{'the packaged file of that kernel' if want == 'shipped' else 'the value itself (a user supplied kernel file must be honoured)'}"),
+               nontrivial_key=("path", kernel))
+
+
 def r_spline(ctx: Ctx, model):
     ctx.rule("K-spline: bspline is the identity for degree 0 and otherwise an approximating B-spline with the data as control points")
     fi = model.func(f"{MU}.bspline")
@@ -552,7 +592,8 @@ def r_spline(ctx: Ctx, model):
                 continue
             sv = cp.get("splev")
             ok = False
-            why = "no splev evaluation"
+            why = "the smoothed curve is not evaluated as a B-spline whose control points are the data (no splev(u, (knots, data.T, degree)) call): " \
+                  "an interpolating spline through the points over- and undershoots, so non-negative contributions can yield a negative distribution"
             if sv:
                 tck = sv[1]
                 why = f"tck = {tck!r}"
@@ -566,7 +607,7 @@ def r_spline(ctx: Ctx, model):
             okp = isinstance(val, tuple) and len(val) == 2 and all(_proj_of(v, i) for i, v in enumerate(val))
             ctx.ob(okp, Finding("C18.K-spline", fi.where, "outputs", f"returned {val!r}: column 0 / column 1 of one splev evaluation required"),
                    nontrivial_key=("proj",))
-    ctx.floor("bspline returning paths", n, 3)
+    ctx.floor("bspline returning paths", n, 2)
 
 
 def _proj_of(v, i):
@@ -636,6 +677,7 @@ def run(ctx: Ctx):
     r_fit(ctx, model)
     r_load(ctx, model)
     r_limits(ctx, model)
+    r_path(ctx, model)
     r_spline(ctx, model)
     r_data(ctx, model)
     from ..sites import no_memoisation
